@@ -33,7 +33,7 @@ def gen_keys(rng, n=None, algs=None, heavy=0.12):
         if algs:
             alg = rng.choice(algs)
         elif r < heavy:
-            alg = rng.choice(['rsa2048', 'rsa1024', 'rsa3072', 'dsa2048', 'dsa1024'])
+            alg = rng.choice(['rsa2048', 'rsa1024', 'rsa3072', 'dsa2048', 'dsa1024', 'rsa2050', 'rsa2050'])
         else:
             alg = rng.choice(['ed25519', 'ed25519', 'ed25519', 'p256', 'p384', 'p521', 'secp256k1'])
         subkeys = []
